@@ -241,8 +241,10 @@ class Verdict:
         coverage["non_vacuity_floors"] = floors
         ev = {"property_id": self.pid, "tier": self.tier, "seed": SEED, "level": level, "coverage": coverage,
               "assumptions": assumptions, "wall_s": round(time.time() - self.t0, 2), "violations": len(unknown)}
-        os.makedirs(os.path.join(VERIF, "evidence"), exist_ok=True)
-        json.dump(ev, open(os.path.join(VERIF, "evidence", self.pid + ".json"), "w"), indent=1, default=str)
+        # (runs against a deliberately broken tree - tools/seed_matrix.py, tools/try_patch.sh - keep their evidence out of the committed directory)
+        evdir = os.environ.get("VERIF_EVIDENCE_DIR") or os.path.join(VERIF, "evidence")
+        os.makedirs(evdir, exist_ok=True)
+        json.dump(ev, open(os.path.join(evdir, self.pid + ".json"), "w"), indent=1, default=str)
         print("[%s %s seed=%d] evaluations=%s distinct=%s violations=%d known=%d inconclusive=%d wall=%.1fs" % (
             self.pid, self.tier, SEED, coverage.get("evaluations"), coverage.get("distinct_nontrivial"), len(unknown), len(hits),
             len(self.inconclusive), time.time() - self.t0))
